@@ -6,6 +6,19 @@ from .seams import make_cache
 from .world import Host, real_eval, compare_with_model
 
 
+def build_names(specs):
+    """Host names mapping from value specs; {"alias": other} binds the SAME object under a second name (the host is free
+    to hand one list to a program under two names)."""
+    out = {}
+    for k, v in specs.items():
+        if not (isinstance(v, dict) and 'alias' in v):
+            out[k] = lang.dec_value(v)
+    for k, v in specs.items():
+        if isinstance(v, dict) and 'alias' in v and v['alias'] in out:
+            out[k] = out[v['alias']]
+    return {k: out[k] for k in specs if k in out}
+
+
 class World:
     def __init__(self, cfg, with_model=True, parser=None):
         """cfg: {"names": {name: spec}, "host_fns": [names], "cache": spec|None}"""
@@ -14,12 +27,12 @@ class World:
         self.parser = parser or boot.fresh_parser(self.cache)
         self.host = Host()
         fns = list(cfg.get('host_fns', ()))
-        self.names = {k: lang.dec_value(v) for k, v in cfg.get('names', {}).items()}
+        self.names = build_names(cfg.get('names', {}))
         if fns:
             self.names.update(self.host.fns(fns))
         self.model = None
         if with_model:
-            mnames = {k: lang.dec_value(v) for k, v in cfg.get('names', {}).items()}
+            mnames = build_names(cfg.get('names', {}))
             self.model = Model(mnames, host_fns=fns,
                                builtin_names=list(monitors.M.orig_functions) if monitors.M.installed else None)
 
@@ -51,7 +64,7 @@ class World:
 def model_only(cfg):
     """World with only the model side, for model-state-aware generation."""
     fns = list(cfg.get('host_fns', ()))
-    mnames = {k: lang.dec_value(v) for k, v in cfg.get('names', {}).items()}
+    mnames = build_names(cfg.get('names', {}))
     return Model(mnames, host_fns=fns, builtin_names=None)
 
 
